@@ -1,4 +1,5 @@
 import JwtModel.Encode
+import Props.FnTie
 /-!
 # C13 — encoding is deterministic and independent of map / insertion order
 
